@@ -84,7 +84,9 @@ Led0  == [rootS |-> Zero1, rootW |-> Zero1,
           raw   |-> Zero1,
           made  |-> False1,            \* object was created
           gone  |-> False1,            \* value was moved out to the caller (try_unwrap/make_mut)
-          det   |-> Zero2,             \* handles held by detached (unwrapped) values
+          fresh |-> 0,                 \* allocation the call in progress creates (make_mut), else 0
+          unw   |-> {},                \* objects whose value is detached in the caller's hands
+          mvd   |-> Zero1,             \* how often the value was moved out / cloned by a consuming call
           dtor  |-> [o \in Obj |-> NoScript],
           stale |-> FALSE,             \* ever: more adoptions recorded than handles held
           over  |-> FALSE,             \* ... caused by adopt (over-recording)
@@ -95,10 +97,12 @@ Ob0   == [nd    |-> Zero1,             \* destructor runs per object
           nf    |-> Zero1,             \* releases of the allocation per object
           ub    |-> {},                \* memory events the code must never perform
           dlog  |-> <<>>,              \* destruction order inside the current call
-          ret   |-> "-",               \* result of the last call
+          ret   |-> "-",               \* result of the last call (top-level or scripted)
+          tret  |-> "-",               \* result of the top-level call in progress (restored at return)
           call  |-> [op |-> "-", a |-> 0, b |-> 0],
           must  |-> {},                \* C03: objects this call is obliged to destroy
           flags |-> {},                \* sticky: violated action properties
+          dcset |-> {},                \* sticky: objects whose destruction is the known finding D-C
           xblocks |-> 0,               \* library heap blocks that are neither an RcBox nor a link table
           ntrace |-> 0, npop |-> 0, nvisit |-> 0, nalloc |-> 0, nmember |-> 0, nlinks |-> 0,
           empty0 |-> FALSE]            \* C14: table of the call's object was empty at entry
@@ -128,12 +132,16 @@ UserPoint   == Quiescent \/ AtDtorPoint
 (* ---- ledger-only notions (never read `heap`) ---- *)
 
 Made(g)        == {o \in Obj : g.made[o]}
-LiveIn(g, x)   == {o \in Made(g) : x.nd[o] = 0 /\ ~g.gone[o]}     \* value not destroyed
+\* objects whose value sits in its allocation and has not been destroyed.  (A value taken out
+\* by try_unwrap is `gone`: it lives on, detached, in the caller's hands until it is dropped.)
+LiveIn(g, x)   == {o \in Made(g) : x.nd[o] = 0 /\ ~g.gone[o]}
 Live           == LiveIn(led, ob)
+\* values that still hold their stored handles (in place or detached)
+HoldingIn(g, x) == {o \in Made(g) : x.nd[o] = 0}
+Detached(g, x)  == {o \in Made(g) : x.nd[o] = 0 /\ g.gone[o]}
 
 \* all existing strong handles to o (wherever held, including by values under destruction)
 HandlesIn(g, o) == g.rootS[o] + g.raw[o] + SumObj([a \in Obj |-> g.valS[a][o]])
-                   + SumObj([a \in Obj |-> g.det[a][o]])
 WeakHandlesIn(g, o) == g.rootW[o] + SumObj([a \in Obj |-> g.valW[a][o]])
 Handles(o)     == HandlesIn(led, o)
 WeakHandles(o) == WeakHandlesIn(led, o)
@@ -141,7 +149,7 @@ WeakHandles(o) == WeakHandlesIn(led, o)
 \* strong handles to m that are not owned by the values of objects in D
 \* (owners whose value is already destroyed no longer hold anything)
 HeldOutside(g, x, D, m) ==
-  g.rootS[m] + g.raw[m] + SumObj([a \in Obj |-> g.det[a][m]])
+  g.rootS[m] + g.raw[m]
   + SumSet([a \in Obj |-> g.valS[a][m]], LiveIn(g, x) \ D)
 
 \* adoptions of m by n that count as owned references.  A self-adoption through the very
@@ -154,7 +162,8 @@ RecCount(g, n, m) == g.rec[n][m]
 \* objects reachable from the program's handles through stored handles
 ReachIn(g, x) ==
   LET L     == LiveIn(g, x)              \* objects whose value still holds its handles
-      roots == {o \in Obj : g.rootS[o] > 0 \/ g.raw[o] > 0} \cup {m \in Obj : \E a \in Obj : g.det[a][m] > 0}
+      roots == {o \in Obj : g.rootS[o] > 0 \/ g.raw[o] > 0}
+               \cup {m \in Obj : \E a \in Detached(g, x) : g.valS[a][m] > 0}
       edge  == [a \in Obj |-> IF a \in L THEN {m \in Obj : g.valS[a][m] > 0} ELSE {}]
       F[k \in 0..NObj] == IF k = 0 THEN roots
                            ELSE LET p == F[k - 1] IN p \cup UNION {edge[a] : a \in p}
@@ -205,7 +214,8 @@ Commit(h, g, x, c) == heap' = h /\ led' = g /\ ob' = x /\ ctl' = c
 Finalize(g, x) ==
   LET dead == {o \in Obj : x.nd[o] > 0}
   IN [x EXCEPT !.flags = @ \cup (IF x.must \subseteq dead THEN {} ELSE {"C03"}),
-               !.must  = {}]
+               !.must  = {},
+               !.ret   = IF x.ret = "panic" \/ x.tret = "-" THEN x.ret ELSE x.tret]
 RetTo(g, x, s) ==
   IF s = <<>>
   THEN Finalize(g, IF Stack # <<>> /\ Stack[Len(Stack)].uw THEN [x EXCEPT !.ret = "panic"] ELSE x)
@@ -215,7 +225,7 @@ Crash(e) ==
   Commit(heap, led, [ob EXCEPT !.ub = @ \cup {e}], [ctl EXCEPT !.mode = "crashed"])
 
 NewCall(op, a, b) ==        \* observation reset at a top-level public call
-  [ob EXCEPT !.call = [op |-> op, a |-> a, b |-> b], !.ret = "-", !.dlog = <<>>,
+  [ob EXCEPT !.call = [op |-> op, a |-> a, b |-> b], !.ret = "-", !.tret = "-", !.dlog = <<>>,
              !.ntrace = 0, !.npop = 0, !.nvisit = 0, !.nalloc = 0, !.nmember = 0,
              !.nlinks = 0, !.empty0 = FALSE]
 \* observation record used by an op: fresh at top level, unchanged inside a destructor
@@ -230,6 +240,11 @@ Remove(tab, k, n) == [tab EXCEPT ![k] = IF @ > n THEN @ - n ELSE 0]      \* Link
 (* (and may depend on the result).  The specification's actions and the trace  *)
 (* Monitor both use exactly these two operators.                               *)
 
+\* the ledger forgets every adoption that involves a destroyed object
+EraseRec(g, o) ==
+  [g EXCEPT !.rec  = [a \in Obj |-> [b \in Obj |-> IF a = o \/ b = o THEN 0 ELSE @[a][b]]],
+            !.recL = [@ EXCEPT ![o] = 0]]
+
 Cause(op) == IF op \in {"Take", "DropStored", "TakeUnadopt"} THEN "elide"
              ELSE IF op \in {"Adopt", "AdoptSame", "AdoptStore"} THEN "over" ELSE "none"
 
@@ -241,6 +256,21 @@ LedCall(g, op, a, b) ==
     [] op = "WeakDrop"   -> [g EXCEPT !.rootW[a] = @ - 1]
     [] op = "StoreWeak"  -> [g EXCEPT !.rootW[b] = @ - 1]
     [] op = "TakeWeak"   -> [g EXCEPT !.valW[a][b] = @ - 1]
+    [] op = "IntoRaw"    -> [g EXCEPT !.rootS[a] = @ - 1, !.raw[a] = @ + 1]
+    [] op = "DecStrong"  -> [g EXCEPT !.raw[a] = @ - 1]
+    \* make_mut through a root handle to a; b = id of the fresh allocation (0: none needed).
+    \* Other strong handles exist: the value is CLONED into b and the old handle is dropped.
+    \* Only Weak handles besides ours: the value is MOVED into b and a is given up.
+    [] op = "MakeMut" ->
+         IF b = 0 THEN g
+         ELSE IF HandlesIn(g, a) > 1
+         THEN [g EXCEPT !.rootS[a] = @ - 1, !.rootS[b] = 1, !.made[b] = TRUE, !.fresh = b,
+                        !.valS[b] = g.valS[a], !.valW[b] = g.valW[a], !.dtor[b] = g.dtor[a],
+                        !.mvd[a] = @ + 1]
+         ELSE [EraseRec(g, a) EXCEPT !.rootS[a] = @ - 1, !.rootS[b] = 1, !.made[b] = TRUE, !.fresh = b,
+                        !.valS[b] = g.valS[a], !.valW[b] = g.valW[a], !.dtor[b] = g.dtor[a],
+                        !.valS[a] = Zero1, !.valW[a] = Zero1, !.dtor[a] = NoScript,
+                        !.gone[a] = TRUE, !.mvd[a] = @ + 1]
     [] OTHER -> g
 
 LedRet(g, op, a, b, d, ret) ==
@@ -263,6 +293,16 @@ LedRet(g, op, a, b, d, ret) ==
     [] op = "WeakClone"   -> IF ret = "ok" THEN [g EXCEPT !.rootW[a] = @ + 1] ELSE g
     [] op = "StoreWeak"   -> [g EXCEPT !.valW[a][b] = @ + 1]
     [] op = "TakeWeak"    -> [g EXCEPT !.rootW[b] = @ + 1]
+    \* try_unwrap: Ok(value) -- the handle is consumed, the value is detached, the allocation
+    \* is given up (every adoption record that involves it is void)
+    [] op = "TryUnwrap"   -> IF ret = "ok"
+                             THEN [EraseRec(g, a) EXCEPT !.rootS[a] = @ - 1, !.gone[a] = TRUE,
+                                                         !.unw = @ \cup {a}, !.mvd[a] = @ + 1]
+                             ELSE g
+    [] op = "MakeMut"     -> [g EXCEPT !.fresh = 0]
+    [] op = "FromRaw"     -> [g EXCEPT !.raw[a] = @ - 1, !.rootS[a] = @ + 1]
+    [] op = "IncStrong"   -> IF ret = "ok" THEN [g EXCEPT !.raw[a] = @ + 1] ELSE g
+    [] op = "DropDetached" -> [g EXCEPT !.unw = @ \ {a}]
     [] OTHER -> g
 
 \* ledger after the "call" half / after the whole call, with the sticky precondition flags
@@ -270,6 +310,27 @@ LC(op, a, b)         == Mark(LedCall(led, op, a, b), ob, Cause(op))
 LR(op, a, b, d, ret) == Mark(LedRet(LC(op, a, b), op, a, b, d, ret), ob, Cause(op))
 
 \* C03/C14 bookkeeping when a public call drops a handle to o (g2 = ledger without it)
+\* Known finding D-C (KNOWN_FINDINGS.json): the orphan test trusts the RECORDED adoptions.
+\* When a recorded handle was removed without unadopt, the record is stale, and a group can
+\* pass the test although one of its members is still referenced from outside.  DCSet is
+\* the exact ledger-side description of that event: at the drop of a handle to X, let V be
+\* what the trace visits (forward closure of X under the records) and K = V plus the
+\* adopters of V; the group K is collected iff every member's handles are covered by the
+\* records held in V.  If that holds only because a record in it is stale, the destruction
+\* of K's members (and later accesses to their memory through the program's dangling
+\* handles) is the known finding.  Anything else is a different violation.
+RECURSIVE FwdClosure(_, _, _)
+FwdClosure(g, x, V) ==
+  LET nxt == {m \in LiveIn(g, x) : \E n \in V : g.rec[n][m] > 0}
+  IN IF nxt \subseteq V THEN V ELSE FwdClosure(g, x, V \cup nxt)
+DCSet(g, x, X) ==
+  IF X \notin LiveIn(g, x) \/ HandlesIn(g, X) = 0 THEN {}
+  ELSE LET V == FwdClosure(g, x, {X})
+           K == V \cup {a \in LiveIn(g, x) : \E m \in V : g.rec[a][m] > 0}
+           covered == \A k \in K : HandlesIn(g, k) <= SumSet([n \in Obj |-> g.rec[n][k]], V)
+           stale == \E n \in V, k \in K : g.rec[n][k] > g.valS[n][k]
+       IN IF covered /\ stale /\ (\E n \in V, m \in V : g.rec[n][m] > 0) THEN K ELSE {}
+
 \* C14: "an object that currently has no recorded adoption" is a statement about the calls
 \* made (never adopted, every adoption removed again, or the other end destroyed), so it is
 \* evaluated on the ledger, not on the library's table
@@ -277,6 +338,7 @@ LedEmpty(g, o) == /\ g.recL[o] = 0
                   /\ \A b \in Obj : g.rec[o][b] = 0 /\ g.rec[b][o] = 0
 DropObs(x, g2, o) ==
   [x EXCEPT !.must = @ \cup MustDie(g2, x, o),
+            !.dcset = @ \cup DCSet(g2, x, o),
             !.empty0 = LedEmpty(g2, o)]
 
 \* C16: cloning a strong handle aborts the process iff the object is already destroyed
@@ -335,7 +397,7 @@ OpCloneStored(a, o, top, base) ==
 OpDropRoot(o, top, base) ==
   /\ led.rootS[o] > 0
   /\ LET g2 == LC("DropRoot", o, 0)
-     IN Commit(heap, g2, DropObs([ObFor(top, "DropRoot", o, 0) EXCEPT !.ret = "unit"], g2, o),
+     IN Commit(heap, g2, DropObs([ObFor(top, "DropRoot", o, 0) EXCEPT !.ret = "unit", !.tret = IF top THEN "unit" ELSE @], g2, o),
                [ctl EXCEPT !.stack = <<Frame("drop", o)>> \o base])
 
 OpStore(a, o, top, base) ==        \* move a root handle of o into a's value: no library call
@@ -351,7 +413,7 @@ OpDropStored(a, o, top, base) ==
   /\ CanOpen(a, top) /\ led.valS[a][o] > 0
   /\ Caps.elide \/ led.rec[a][o] < led.valS[a][o]
   /\ LET g2 == LC("DropStored", a, o)
-     IN Commit(heap, g2, DropObs([ObFor(top, "DropStored", a, o) EXCEPT !.ret = "unit"], g2, o),
+     IN Commit(heap, g2, DropObs([ObFor(top, "DropStored", a, o) EXCEPT !.ret = "unit", !.tret = IF top THEN "unit" ELSE @], g2, o),
                [ctl EXCEPT !.stack = <<Frame("drop", o)>> \o base])
 
 \* adopt_unchecked(this, other) through two distinct handle objects (src/adopt.rs:136-166)
@@ -453,6 +515,97 @@ OpTakeWeak(a, o, top, base) ==
   /\ Intact(a) /\ ob.nd[a] = 0 /\ led.valW[a][o] > 0
   /\ Done(heap, "TakeWeak", a, o, NoScript, "ok", top, base)
 
+\* ---- purge of drop_unreachable_with_adoptions (src/drop.rs:375-396) ----
+RECURSIVE PurgeFold(_, _, _)
+PurgeFold(hx, o, E) ==      \* hx = [h, ub]; E = entries of o's table still to process
+  IF E = {} \/ hx.ub # {} THEN hx
+  ELSE LET e == CHOOSE e \in E : TRUE
+           p == e[2]
+           n == hx.h.links[o][e]
+       IN IF p = o THEN PurgeFold(hx, o, E \ {e})
+          ELSE IF ~(hx.h.mem[p] = "alloc") THEN [hx EXCEPT !.ub = {<<"uaf", p>>}]
+          ELSE IF ~hx.h.linit[p] THEN [hx EXCEPT !.ub = {<<"stale_links", p>>}]
+          ELSE PurgeFold([hx EXCEPT !.h.links[p] = Remove(Remove(@, <<"F", o>>, n), <<"B", o>>, n)],
+                         o, E \ {e})
+
+(* ---- handle-consuming APIs (src/rc.rs:432-452, 511-515, 590-599, 687-725, 882-919) ---- *)
+
+\* Variant.consume = "purge": try_unwrap / make_mut first unlink the allocation they give up
+\* from its peers and drop its table; "ignore": they never look at the table (pinned tree)
+GiveUp(h, o) ==
+  IF Variant.consume = "purge"
+  THEN LET r == PurgeFold([h |-> h, ub |-> {}], o, Entries(h, o))
+       IN [r.h EXCEPT !.links[o] = NoLinks, !.linit[o] = FALSE, !.tbl[o] = FALSE]
+  ELSE h
+
+OpTryUnwrap(o, top, base) ==
+  /\ led.rootS[o] > 0 /\ Intact(o) /\ ob.nd[o] = 0
+  /\ IF heap.strong[o] = 1
+     THEN LET h1 == GiveUp(heap, o)
+              h2 == [h1 EXCEPT !.vinit[o] = FALSE, !.strong[o] = 0]
+              r  == WeakDropHeap(h2, [ObFor(top, "TryUnwrap", o, 0) EXCEPT !.ret = "ok"], o)
+          IN CommitHX(r, LR("TryUnwrap", o, 0, NoScript, "ok"), [ctl EXCEPT !.stack = base])
+     ELSE Done(heap, "TryUnwrap", o, 0, NoScript, "err", top, base)
+
+OpGetMut(o, top, base) ==
+  /\ led.rootS[o] > 0 /\ Intact(o) /\ ob.nd[o] = 0
+  /\ Done(heap, "GetMut", o, 0, NoScript,
+          IF heap.strong[o] = 1 /\ heap.weak[o] = 1 THEN "some" ELSE "none", top, base)
+
+FreshObj(b) == ~led.made[b] /\ \A p \in Obj : p < b => led.made[p]
+
+OpMakeMut(o, top, base) ==
+  /\ led.rootS[o] > 0 /\ Intact(o) /\ ob.nd[o] = 0
+  /\ IF heap.strong[o] # 1
+     THEN \* clone the value into a fresh allocation, then `*this = new` drops the old handle
+          \E b \in Obj :
+            /\ FreshObj(b)
+            /\ \A t \in Obj : Handles(t) + led.valS[o][t] <= Caps.strong + 1
+            /\ IF \E t \in Obj : led.valS[o][t] > 0 /\ IncKind(t) # "ok"
+               THEN Commit(heap, led, [ObFor(top, "MakeMut", o, b) EXCEPT !.ret = "abort"],
+                           [ctl EXCEPT !.mode = "aborted"])
+               ELSE LET h1 == [heap EXCEPT !.mem[b] = "alloc", !.strong[b] = 1, !.weak[b] = 1,
+                                           !.vinit[b] = TRUE, !.linit[b] = TRUE,
+                                           !.strong = [t \in Obj |-> IF t = b THEN 1 ELSE @[t] + led.valS[o][t]],
+                                           !.weak   = [t \in Obj |-> IF t = b THEN 1 ELSE @[t] + led.valW[o][t]]]
+                        g2 == LR("MakeMut", o, b, NoScript, "cloned")
+                    IN Commit(h1, g2,
+                              DropObs([ObFor(top, "MakeMut", o, b) EXCEPT !.ret = "cloned", !.tret = IF top THEN "cloned" ELSE @], g2, o),
+                              [ctl EXCEPT !.stack = <<Frame("drop", o)>> \o base])
+     ELSE IF heap.weak[o] # 1
+     THEN \* only Weak handles besides ours: steal the value
+          \E b \in Obj :
+            /\ FreshObj(b)
+            /\ LET h0 == GiveUp(heap, o)
+                   h1 == [h0 EXCEPT !.mem[b] = "alloc", !.strong[b] = 1, !.weak[b] = 1,
+                                    !.vinit[b] = TRUE, !.linit[b] = TRUE,
+                                    !.vinit[o] = FALSE, !.strong[o] = 0, !.weak[o] = @ - 1]
+               IN Commit(h1, LR("MakeMut", o, b, NoScript, "moved"), [ObFor(top, "MakeMut", o, b) EXCEPT !.ret = "moved"],
+                         [ctl EXCEPT !.stack = base])
+     ELSE Done(heap, "MakeMut", o, 0, NoScript, "unique", top, base)
+
+OpIntoRaw(o, top, base) ==
+  /\ led.rootS[o] > 0
+  /\ Done(heap, "IntoRaw", o, 0, NoScript, "ok", top, base)
+OpFromRaw(o, top, base) ==
+  /\ led.raw[o] > 0
+  /\ Done(heap, "FromRaw", o, 0, NoScript, "ok", top, base)
+OpIncStrong(o, top, base) ==
+  /\ led.raw[o] > 0 /\ Handles(o) < Caps.strong
+  /\ DoClone(o, "IncStrong", o, 0, ObFor(top, "IncStrong", o, 0), base)
+OpDecStrong(o, top, base) ==
+  /\ led.raw[o] > 0
+  /\ LET g2 == LC("DecStrong", o, 0)
+     IN Commit(heap, g2, DropObs([ObFor(top, "DecStrong", o, 0) EXCEPT !.ret = "unit", !.tret = IF top THEN "unit" ELSE @], g2, o),
+               [ctl EXCEPT !.stack = <<Frame("drop", o)>> \o base])
+
+\* the caller drops a value it got from try_unwrap: destructor, then the stored handles
+OpDropDetached(o, top, base) ==
+  /\ o \in led.unw /\ ob.nd[o] = 0
+  /\ Commit(heap, LR("DropDetached", o, 0, NoScript, "unit"),
+            [ObFor(top, "DropDetached", o, 0) EXCEPT !.ret = "unit", !.tret = IF top THEN "unit" ELSE @],
+            [ctl EXCEPT !.stack = <<[Frame("value", o) EXCEPT !.ph = "enter"]>> \o base])
+
 \* dispatch by name (used by destructor scripts and by the trace specification)
 CallOp(op, a, b, d, top, base) ==
   CASE op = "New"         -> OpNew(d, top, base)
@@ -475,6 +628,14 @@ CallOp(op, a, b, d, top, base) ==
     [] op = "WeakDrop"    -> OpWeakDrop(a, top, base)
     [] op = "StoreWeak"   -> OpStoreWeak(a, b, top, base)
     [] op = "TakeWeak"    -> OpTakeWeak(a, b, top, base)
+    [] op = "TryUnwrap"   -> OpTryUnwrap(a, top, base)
+    [] op = "GetMut"      -> OpGetMut(a, top, base)
+    [] op = "MakeMut"     -> OpMakeMut(a, top, base)
+    [] op = "IntoRaw"     -> OpIntoRaw(a, top, base)
+    [] op = "FromRaw"     -> OpFromRaw(a, top, base)
+    [] op = "IncStrong"   -> OpIncStrong(a, top, base)
+    [] op = "DecStrong"   -> OpDecStrong(a, top, base)
+    [] op = "DropDetached" -> OpDropDetached(a, top, base)
     [] OTHER -> FALSE
 
 -----------------------------------------------------------------------------
@@ -503,19 +664,6 @@ TraceFrom(h, o) ==
       npush == SumSet([k \in V \ bad |-> Cardinality({e \in Entries(h, k[2]) : Follows(e)})], V \ bad)
   IN [cyc |-> [c \in keys |-> own(c)], bad |-> bad, nvisit |-> Cardinality(V), npop |-> 1 + npush,
       nlinks |-> npush]
-
-\* ---- purge of drop_unreachable_with_adoptions (src/drop.rs:375-396) ----
-RECURSIVE PurgeFold(_, _, _)
-PurgeFold(hx, o, E) ==      \* hx = [h, ub]; E = entries of o's table still to process
-  IF E = {} \/ hx.ub # {} THEN hx
-  ELSE LET e == CHOOSE e \in E : TRUE
-           p == e[2]
-           n == hx.h.links[o][e]
-       IN IF p = o THEN PurgeFold(hx, o, E \ {e})
-          ELSE IF ~(hx.h.mem[p] = "alloc") THEN [hx EXCEPT !.ub = {<<"uaf", p>>}]
-          ELSE IF ~hx.h.linit[p] THEN [hx EXCEPT !.ub = {<<"stale_links", p>>}]
-          ELSE PurgeFold([hx EXCEPT !.h.links[p] = Remove(Remove(@, <<"F", o>>, n), <<"B", o>>, n)],
-                         o, E \ {e})
 
 \* ---- drop_cycle P1: bust links and decrement (src/drop.rs:224-267) ----
 RECURSIVE BustFold(_, _, _)
@@ -674,11 +822,6 @@ StepPostValue ==
 -----------------------------------------------------------------------------
 (* Destruction of one value: the user's destructor, then the handles stored in it *)
 
-\* the ledger forgets every adoption that involves a destroyed object
-EraseRec(g, o) ==
-  [g EXCEPT !.rec  = [a \in Obj |-> [b \in Obj |-> IF a = o \/ b = o THEN 0 ELSE @[a][b]]],
-            !.recL = [@ EXCEPT ![o] = 0]]
-
 \* T::drop is entered: from here on the value counts as destroyed
 StepValueEnter ==
   /\ Running /\ Stack # <<>> /\ Top.pc = "value" /\ Top.ph = "enter"
@@ -733,7 +876,7 @@ StepValueFields ==
      IN IF ts # {}
         THEN LET t  == MinOf(ts)
                  g2 == [led EXCEPT !.valS[o][t] = @ - 1]
-             IN Commit(heap, g2, [ob EXCEPT !.must = @ \cup Demand(g2, ob, t)],
+             IN Commit(heap, g2, [ob EXCEPT !.must = @ \cup Demand(g2, ob, t), !.dcset = @ \cup DCSet(g2, ob, t)],
                        [ctl EXCEPT !.stack = <<Frame("drop", t)>> \o Stack])
         ELSE IF tw # {}
         THEN LET t == MinOf(tw) IN
@@ -770,6 +913,14 @@ Call ==
      \/ En("WeakDrop")    /\ \E o \in Obj : OpWeakDrop(o, TRUE, <<>>)
      \/ En("StoreWeak")   /\ \E a, o \in Obj : OpStoreWeak(a, o, TRUE, <<>>)
      \/ En("TakeWeak")    /\ \E a, o \in Obj : OpTakeWeak(a, o, TRUE, <<>>)
+     \/ En("TryUnwrap")   /\ \E o \in Obj : OpTryUnwrap(o, TRUE, <<>>)
+     \/ En("GetMut")      /\ \E o \in Obj : OpGetMut(o, TRUE, <<>>)
+     \/ En("MakeMut")     /\ \E o \in Obj : OpMakeMut(o, TRUE, <<>>)
+     \/ En("IntoRaw")     /\ \E o \in Obj : OpIntoRaw(o, TRUE, <<>>)
+     \/ En("FromRaw")     /\ \E o \in Obj : OpFromRaw(o, TRUE, <<>>)
+     \/ En("IncStrong")   /\ \E o \in Obj : OpIncStrong(o, TRUE, <<>>)
+     \/ En("DecStrong")   /\ \E o \in Obj : OpDecStrong(o, TRUE, <<>>)
+     \/ En("DropDetached") /\ \E o \in Obj : OpDropDetached(o, TRUE, <<>>)
 
 Micro ==
   \/ StepDrop \/ StepOrphan \/ StepBust \/ StepMark \/ StepCycleDestroy \/ StepRelease
@@ -782,8 +933,11 @@ Spec == Init /\ [][Next]_vars
 -----------------------------------------------------------------------------
 (* Properties C01 ... (state invariants; action properties are sticky flags) *)
 
-C01 == ~led.stale =>
-         \A o \in Reach : heap.mem[o] = "alloc" /\ heap.vinit[o] /\ ob.nd[o] = 0 /\ ob.nf[o] = 0
+\* a reachable object is intact (the allocation a call in progress is about to create is
+\* exempt until it exists)
+IntactReach(o) == \/ o = led.fresh /\ heap.mem[o] = "none"
+                  \/ heap.mem[o] = "alloc" /\ heap.vinit[o] /\ ob.nd[o] = 0 /\ ob.nf[o] = 0
+C01 == ~led.stale => \A o \in Reach : IntactReach(o)
 
 \* scope: histories that respect the contract of adopt_unchecked (C01's precondition); what
 \* happens after removing a recorded handle without unadopt is C13's subject
@@ -822,6 +976,27 @@ C08 == Quiescent /\ ob.ub = {} =>
 C14 == "C14" \notin ob.flags
 
 C16 == "C16" \notin ob.flags
+
+\* C11 (beyond C01/C02/C05): a single panicking destructor reaches the caller as a panic,
+\* it does not abort the process
+C11x == ctl.mode # "aborted" /\ "C11" \notin ob.flags
+
+\* C13: after a recorded handle was removed without unadopt (and no adoption was ever
+\* over-recorded by adopt itself), reachable objects stay intact and nothing illegal is touched
+\* C13 with the known finding D-C excused: everything that is not a consequence of D-C
+C13x == led.elided /\ ~led.over =>
+          /\ \A e \in ob.ub : e[2] \in ob.dcset
+          /\ \A o \in Reach : IntactReach(o) \/ o \in ob.dcset
+C13 == led.elided /\ ~led.over =>
+         /\ ob.ub = {}
+         /\ \A o \in Reach : IntactReach(o)
+
+\* C12: after try_unwrap / make_mut / get_mut / raw round trips / inc-dec on linked objects the
+\* remaining graph is consistent: no table names a given-up allocation (C08 on the ledger,
+\* where giving up an allocation voids its records), the given-up allocation and its table
+\* are released (C04), counts stay exact (C06), no illegal access later (C02), and the value
+\* was moved or cloned exactly once per call (flag set by the Monitor from payload counters)
+C12 == C02 /\ C04 /\ C06 /\ C08 /\ "C12" \notin ob.flags
 
 TypeOK ==
   /\ \A o \in Obj : heap.strong[o] >= UNINIT /\ heap.weak[o] >= 0
